@@ -39,6 +39,10 @@ func readGsubSubtable(p *parser.Parser, pos int64, meta *LookupMetaInfo) (Subtab
 	}
 
 	reader, ok := gsubReaders[10*meta.LookupType+format]
+	if meta.LookupType >= 10 || format >= 10 {
+		// the key above is computed in uint16 arithmetic
+		ok = false
+	}
 	if !ok {
 		return nil, &parser.InvalidFontError{
 			SubSystem: "sfnt/opentype/gtab",
@@ -187,6 +191,9 @@ func (l *Gsub1_2) encodeLen() int {
 func (l *Gsub1_2) encode() []byte {
 	n := len(l.SubstituteGlyphIDs)
 	covOffs := 6 + 2*n
+	if covOffs > 0xFFFF {
+		panic("coverage offset overflow")
+	}
 
 	buf := make([]byte, covOffs+l.Cov.EncodeLen())
 	// buf[0] = 0
@@ -308,6 +315,9 @@ func (l *Gsub2_1) encode() []byte {
 	for i, repl := range l.Repl {
 		sequenceOffsets[i] = uint16(covOffs)
 		covOffs += 2 + 2*len(repl)
+	}
+	if covOffs > 0xFFFF {
+		panic("coverage offset overflow")
 	}
 
 	buf := make([]byte, covOffs+l.Cov.EncodeLen())
@@ -432,6 +442,9 @@ func (l *Gsub3_1) encode() []byte {
 	for i, repl := range l.Alternates {
 		alternateSetOffsets[i] = uint16(covOffs)
 		covOffs += 2 + 2*len(repl)
+	}
+	if covOffs > 0xFFFF {
+		panic("coverage offset overflow")
 	}
 
 	buf := make([]byte, covOffs+l.Cov.EncodeLen())
